@@ -59,7 +59,10 @@ func typeRangeOf(t types.Type) ival {
 	if !ok || b.Info()&types.IsInteger == 0 {
 		return ival{}
 	}
-	w, _ := typeWidth(t)
+	w, okw := typeWidth(t)
+	if !okw || w < 2 {
+		return ival{}
+	}
 	if b.Info()&types.IsUnsigned != 0 {
 		return ival{lo: big.NewInt(0), hi: new(big.Int).Sub(new(big.Int).Lsh(big.NewInt(1), uint(w)), big.NewInt(1))}
 	}
@@ -261,6 +264,42 @@ func (p *Prog) evalI(e ast.Expr, env ienv) ival {
 		if r, ok := p.knownResult(cn, 0); ok {
 			return meetIval(tr, r)
 		}
+		if (cn == "builtin.min" || cn == "builtin.max") && len(x.Args) >= 1 {
+			acc := p.evalI(x.Args[0], env)
+			for _, a := range x.Args[1:] {
+				b := p.evalI(a, env)
+				var r ival
+				pick := func(u, v *big.Int, wantMax bool) *big.Int {
+					if u == nil || v == nil {
+						return nil
+					}
+					if (u.Cmp(v) > 0) == wantMax {
+						return u
+					}
+					return v
+				}
+				isMax := cn == "builtin.max"
+				r.lo = pick(acc.lo, b.lo, isMax)
+				r.hi = pick(acc.hi, b.hi, isMax)
+				// max(a,b) >= each lower bound even when the other is unknown; min(a,b) <= each upper bound
+				if isMax && r.lo == nil {
+					if acc.lo != nil {
+						r.lo = acc.lo
+					} else {
+						r.lo = b.lo
+					}
+				}
+				if !isMax && r.hi == nil {
+					if acc.hi != nil {
+						r.hi = acc.hi
+					} else {
+						r.hi = b.hi
+					}
+				}
+				acc = r
+			}
+			return meetIval(tr, acc)
+		}
 		if cn == "builtin.len" || cn == "builtin.cap" {
 			if t := p.typeOf(x.Args[0]); t != nil {
 				if arr, ok := t.Underlying().(*types.Array); ok {
@@ -298,6 +337,11 @@ func (p *Prog) evalI(e ast.Expr, env ienv) ival {
 					return tr
 				}
 				return p.halfBounded(out, l, r, tr)
+			}
+			if p.ivCurFn != nil && p.ivCurSite != nil && x.Op != token.MUL && !p.ivInLin {
+				p.ivInLin = true
+				out = p.linRefine(p.ivCurFn, x, p.ivCurSite, env, out)
+				p.ivInLin = false
 			}
 			return out
 		}
@@ -710,6 +754,9 @@ func (p *Prog) envStep(s ast.Stmt, cur ienv) ienv {
 	if cur.isBottom() {
 		return cur // unreachable code stays unreachable
 	}
+	saveSite := p.ivCurSite
+	p.ivCurSite = s
+	defer func() { p.ivCurSite = saveSite }()
 	switch x := s.(type) {
 	case *ast.IfStmt:
 		if x.Init != nil {
@@ -820,6 +867,9 @@ func (p *Prog) envStep(s ast.Stmt, cur ienv) ienv {
 					continue
 				}
 				vals[i] = p.evalIBin(rhs, cur)
+				if p.ivCurFn != nil && (x.Tok == token.ASSIGN || x.Tok == token.DEFINE) {
+					vals[i] = p.linRefine(p.ivCurFn, r, x, cur, vals[i])
+				}
 			}
 			for i, l := range x.Lhs {
 				k := p.ikey(l)
@@ -1243,7 +1293,10 @@ func (p *Prog) intervalAt(fd *ast.FuncDecl, e ast.Expr, stack []ast.Node) ival {
 	if site == nil {
 		return p.evalI(e, ienv{})
 	}
+	saveFn := p.ivCurFn
+	p.ivCurFn = fd
 	env, reached := p.envWalk(fd.Body.List, p.paramEnv(fd), site)
+	p.ivCurFn = saveFn
 	if !reached {
 		return p.evalI(e, ienv{})
 	}
@@ -1251,7 +1304,37 @@ func (p *Prog) intervalAt(fd *ast.FuncDecl, e ast.Expr, stack []ast.Node) ival {
 	if ifs, ok := site.(*ast.IfStmt); ok && containsNode(ifs.Cond, e) {
 		env = p.condEnv(ifs.Cond, env, e)
 	}
-	return p.evalI(e, env)
+	out := p.evalI(e, env)
+	return p.linRefine(fd, e, site, env, out)
+}
+
+// linRefine tightens `out`, the interval of e at site, by symbolic cancellation: the same value as a
+// linear form over variables whose intervals hold at the site (definitions are looked through only
+// when their sources are unchanged since).
+func (p *Prog) linRefine(fd *ast.FuncDecl, e ast.Expr, site ast.Node, env ienv, out ival) ival {
+	if terms, c, ok := p.linForm(fd, e, site, 0); ok && !env.isBottom() && len(terms) > 0 {
+		// variable intervals at the site; a variable expanded from an earlier definition keeps its meaning
+		// because nothing it depends on was assigned in between
+		types_ := map[string]ival{}
+		ast.Inspect(fd, func(m ast.Node) bool {
+			if ex, ok := m.(ast.Expr); ok {
+				if k := p.ikey(ex); k != "" {
+					if _, seen := types_[k]; !seen {
+						types_[k] = typeRangeOf(p.typeOf(ex))
+					}
+				}
+			}
+			return true
+		})
+		lin := p.linInterval(fd, terms, c, env, func(k string) ival { return types_[k] })
+		// the linear value is the mathematical one: it equals the machine value only if no intermediate
+		// wrapped, which holds when the plain evaluation already stayed inside the type range
+		tr := typeRangeOf(p.typeOf(e))
+		if lin.lo != nil && lin.hi != nil && tr.lo != nil && !(out.lo != nil && out.hi != nil && out.lo.Cmp(tr.lo) == 0 && out.hi.Cmp(tr.hi) == 0) {
+			out = meetIval(out, lin)
+		}
+	}
+	return out
 }
 
 // paramEnv: the integer parameters of an unexported function are bounded by the join of what its
@@ -1450,8 +1533,11 @@ func (p *Prog) calleeSummary(call *ast.CallExpr, env ienv) []ivResult {
 	fr := &ivRetFrame{}
 	p.ivRets = append(p.ivRets, fr)
 	saveFrames := p.ivFrames
+	saveFn := p.ivCurFn
 	p.ivFrames = nil
+	p.ivCurFn = fd
 	p.envWalk(fd.Body.List, in, nil)
+	p.ivCurFn = saveFn
 	p.ivFrames = saveFrames
 	p.ivRets = p.ivRets[:len(p.ivRets)-1]
 	p.ivCallDepth--
@@ -1521,4 +1607,204 @@ func (p *Prog) nilness(e ast.Expr, env ienv) int {
 		}
 	}
 	return -1
+}
+
+// linForm rewrites an integer expression as Σ coef·variable + constant, expanding locals that are
+// defined exactly once (and whose sources are not assigned between that definition and `site`), so that
+// terms cancel symbolically: int(exp) - (int(exp) + digits - bias) is bias - digits, which intervals
+// alone cannot see. Conversions are looked through only when they cannot change the value (widening).
+func (p *Prog) linForm(fd *ast.FuncDecl, e ast.Expr, site ast.Node, depth int) (map[string]*big.Int, *big.Int, bool) {
+	e = ast.Unparen(e)
+	if k, ok := constBig(p.constOf(e)); ok {
+		return map[string]*big.Int{}, k, true
+	}
+	add := func(a map[string]*big.Int, ac *big.Int, b map[string]*big.Int, bc *big.Int, sign int64) (map[string]*big.Int, *big.Int) {
+		out := map[string]*big.Int{}
+		for k, v := range a {
+			out[k] = new(big.Int).Set(v)
+		}
+		s := big.NewInt(sign)
+		for k, v := range b {
+			t := new(big.Int).Mul(v, s)
+			if cur, ok := out[k]; ok {
+				t.Add(t, cur)
+			}
+			if t.Sign() == 0 {
+				delete(out, k)
+			} else {
+				out[k] = t
+			}
+		}
+		return out, new(big.Int).Add(ac, new(big.Int).Mul(bc, s))
+	}
+	switch x := e.(type) {
+	case *ast.BinaryExpr:
+		switch x.Op {
+		case token.ADD, token.SUB:
+			a, ac, ok1 := p.linForm(fd, x.X, site, depth)
+			b, bc, ok2 := p.linForm(fd, x.Y, site, depth)
+			if !ok1 || !ok2 {
+				return nil, nil, false
+			}
+			sign := int64(1)
+			if x.Op == token.SUB {
+				sign = -1
+			}
+			m, c := add(a, ac, b, bc, sign)
+			return m, c, true
+		case token.MUL:
+			for _, pair := range [][2]ast.Expr{{x.X, x.Y}, {x.Y, x.X}} {
+				if k, ok := constBig(p.constOf(pair[0])); ok {
+					b, bc, ok2 := p.linForm(fd, pair[1], site, depth)
+					if !ok2 {
+						return nil, nil, false
+					}
+					out := map[string]*big.Int{}
+					for key, v := range b {
+						out[key] = new(big.Int).Mul(v, k)
+					}
+					return out, new(big.Int).Mul(bc, k), true
+				}
+			}
+		}
+		return nil, nil, false
+	case *ast.UnaryExpr:
+		if x.Op == token.SUB {
+			b, bc, ok := p.linForm(fd, x.X, site, depth)
+			if !ok {
+				return nil, nil, false
+			}
+			m, c := add(map[string]*big.Int{}, big.NewInt(0), b, bc, -1)
+			return m, c, true
+		}
+		return nil, nil, false
+	case *ast.CallExpr:
+		if tv, ok := p.Info.Types[x.Fun]; ok && tv.IsType() && len(x.Args) == 1 && isIntType(tv.Type) {
+			at := p.typeOf(x.Args[0])
+			if at != nil && isIntType(at) {
+				aw, _ := typeWidth(at)
+				tw, _ := typeWidth(tv.Type)
+				ab := at.Underlying().(*types.Basic)
+				tb := tv.Type.Underlying().(*types.Basic)
+				// value-preserving: widening with the same signedness, or unsigned to a wider signed type
+				if (tw > aw && (ab.Info()&types.IsUnsigned != 0 || tb.Info()&types.IsUnsigned == 0)) || (tw == aw && (ab.Info()&types.IsUnsigned != 0) == (tb.Info()&types.IsUnsigned != 0)) {
+					return p.linForm(fd, x.Args[0], site, depth)
+				}
+			}
+		}
+	}
+	key := p.ikey(e)
+	if key == "" {
+		return nil, nil, false
+	}
+	// expand a single-definition local
+	if id, ok := e.(*ast.Ident); ok && depth < 4 {
+		if o := p.objOf(id); o != nil {
+			var def *ast.AssignStmt
+			var rhs ast.Expr
+			n := 0
+			ast.Inspect(fd.Body, func(m ast.Node) bool {
+				switch y := m.(type) {
+				case *ast.AssignStmt:
+					for i, l := range y.Lhs {
+						if p.objOf(l) == o {
+							n++
+							if y.Tok == token.DEFINE && len(y.Lhs) == len(y.Rhs) {
+								def, rhs = y, y.Rhs[i]
+							}
+						}
+					}
+				case *ast.IncDecStmt:
+					if p.objOf(y.X) == o {
+						n += 2
+					}
+				}
+				return true
+			})
+			if n == 1 && def != nil && def.End() <= site.Pos() {
+				// the sources of the definition must not change between it and the site
+				deps := map[string]bool{}
+				ast.Inspect(rhs, func(m ast.Node) bool {
+					if ex, ok := m.(ast.Expr); ok {
+						if k := p.exprKey(ex); k != "" {
+							deps[k] = true
+						}
+					}
+					return true
+				})
+				clean := true
+				ast.Inspect(fd.Body, func(m ast.Node) bool {
+					st, ok := m.(ast.Stmt)
+					if !ok || st.Pos() < def.End() || st.Pos() >= site.Pos() {
+						return true
+					}
+					switch st.(type) {
+					case *ast.AssignStmt, *ast.IncDecStmt:
+						for k := range deps {
+							if p.assignsTo(st, k) {
+								clean = false
+							}
+						}
+					}
+					return true
+				})
+				// and the definition must not sit in a loop that the site is outside of or that reassigns sources
+				inLoop := false
+				for _, anc := range stackOf(fd, def) {
+					if _, ok := anc.(*ast.ForStmt); ok {
+						inLoop = true
+					}
+					if _, ok := anc.(*ast.RangeStmt); ok {
+						inLoop = true
+					}
+				}
+				// a loop around the site (but not around the definition) must not assign the sources at all:
+				// an assignment textually after the site still precedes the site's next execution
+				if siteStmt, ok := site.(ast.Node); ok && clean {
+					for _, anc := range stackOf(fd, siteStmt) {
+						switch anc.(type) {
+						case *ast.ForStmt, *ast.RangeStmt:
+							if !containsNode(anc, def) {
+								for k := range deps {
+									if p.assignsTo(anc, k) {
+										clean = false
+									}
+								}
+								if p.assignsTo(anc, key) {
+									clean = false
+								}
+							}
+						}
+					}
+				}
+				if clean && !inLoop {
+					if m, c, ok := p.linForm(fd, rhs, def, depth+1); ok {
+						return m, c, true
+					}
+				}
+			}
+		}
+	}
+	return map[string]*big.Int{key: big.NewInt(1)}, big.NewInt(0), true
+}
+
+// linInterval evaluates a linear form on an environment.
+func (p *Prog) linInterval(fd *ast.FuncDecl, terms map[string]*big.Int, c *big.Int, env ienv, typeOfKey func(string) ival) ival {
+	out := ival{lo: new(big.Int).Set(c), hi: new(big.Int).Set(c)}
+	for k, coef := range terms {
+		v, ok := env[k]
+		if !ok {
+			v = typeOfKey(k)
+		}
+		if v.lo == nil || v.hi == nil {
+			return ival{}
+		}
+		a, b := new(big.Int).Mul(coef, v.lo), new(big.Int).Mul(coef, v.hi)
+		if a.Cmp(b) > 0 {
+			a, b = b, a
+		}
+		out.lo.Add(out.lo, a)
+		out.hi.Add(out.hi, b)
+	}
+	return out
 }
